@@ -58,9 +58,26 @@ class DmNoise(Harness):
 
         n, q = self.n, self.q
         p = spec["p"]
+        if getattr(self, "pval", None) is not None:
+            # 16 symbolic square roots make the two-qubit channel a hard QF_NRA query (z3: unknown); as planned in the
+            # design the obligation is posed on a grid of concrete strengths with rho still fully symbolic (QF_LRA)
+            p = float(self.pval)
         rho = rho_cells(spec["rho"])
         qs = dm_state(spec["rho"].copy(), n)
-        if self.model == "depolarizing":
+        if self.model == "depolarizing2":
+            # two-qubit depolarizing channel on (q, q2): 16 Pauli pairs, weight 1-p on II and p/15 on each other pair
+            q2 = (q + 1) % n
+            nm.DepolarizingNoise(p).apply(qs, n, [q, q2])
+            N = 1 << n
+            acc = [[0 for _ in range(N)] for _ in range(N)]
+            for ga in ("I", "X", "Y", "Z"):
+                for gb in ("I", "X", "Y", "Z"):
+                    if ga == "I" and gb == "I":
+                        continue
+                    t = D.apply_1q(D.apply_1q(rho, ga, q, n), gb, q2, n)
+                    acc = D.add(acc, t)
+            want = [[(1 - p) * rho[i][j] + (p / 15) * acc[i][j] for j in range(N)] for i in range(N)]
+        elif self.model == "depolarizing":
             nm.DepolarizingNoise(p).apply(qs, n, [q])
             terms = [D.apply_1q(rho, g, q, n) for g in ("X", "Y", "Z")]
             N = 1 << n
@@ -287,6 +304,10 @@ def plan(tier):
         for qq in range(n):
             for model in ("depolarizing", "pauliX", "pauliY", "pauliZ", "pauliI", "loss"):
                 jobs.append((DmNoise(n=n, q=qq, model=model), {}))
+    for n in ([2] if q else [2, 3]):
+        for qq in range(n):
+            for pval in (0.0, 0.25, 0.6, 1.0):
+                jobs.append((DmNoise(n=n, q=qq, model="depolarizing2", pval=pval), {}))
     for n in ([1, 2] if q else [1, 2]):
         for qq in range(n):
             for model in ("depolarizing", "pauliX", "pauliY", "pauliZ", "pauliI", "loss"):
